@@ -20,7 +20,7 @@ func init() {
 		Rule: "differential monitor of Relu / LeakyRelu / Sigmoid / Tanh / Softmax forward values: every input shape of rank 0..R (sizes 1..3; R = 4 in quick, 5 in thorough), Softmax for EVERY Dim 0..rank-1 and the nil config, LeakyRelu slopes {nil config, 0, 0.01, 0.5, 1, 2, -0.3}, input value classes {unique reals, exact 0 / -0 mixed in, +-700 and other large magnitudes with different fibres at opposite extremes, +-1e-300}; one activation object is reused for two different inputs. Each element is compared with the defining scalar function (Softmax: e^x / sum e^x over the fibre along Dim computed with explicit index arithmetic); shape preserved; Softmax >= 0 and every fibre sums to 1 +- 1e-12. " +
 			"Non-trivial: >= 2 elements; distinct = (activation, config, shape, value class).",
 		Assumptions: []string{"values compared within 1e-12 relative (+1e-300 absolute)"},
-		FloorQuick:  2000, FloorThor: 8000,
+		FloorQuick:  10000, FloorThor: 40000,
 		Run: runC14,
 	})
 }
@@ -101,7 +101,7 @@ func actSpecs(rank int) []actSpec {
 }
 
 func runC14(c *fw.Ctx) {
-	for _, shape := range Shapes(0, c.Pick(4, 5), 3) {
+	for _, shape := range Shapes(0, c.Pick(5, 6), 3) {
 		for _, sp := range actSpecs(len(shape)) {
 			for class := 0; class < 4; class++ {
 				shape, sp, class := shape, sp, class
